@@ -188,8 +188,8 @@ func (sb *StoredBatch) encodeFor(fetchVersion int16) []byte {
 			b.Records = rs
 		}
 	}
-	if magic < 2 && len(b.Records) == 0 {
-		sb.enc[magic] = nil // an empty v2 batch has no v0/v1 representation
+	if magic < 2 && (len(b.Records) == 0 || b.Control) {
+		sb.enc[magic] = nil // an empty v2 batch / a control batch has no v0/v1 representation
 		return nil
 	}
 	e, _, err := rc.EncodeBatch(b, rc.EncodeOpts{})
